@@ -367,6 +367,126 @@ def search_invariance(ctx, rng, budget):
     return hits, n_eval, len(distinct), samples
 
 
+SNIPPET_SCALE = '''
+import json, sys, warnings
+import numpy as np
+warnings.simplefilter('ignore')
+import abel.tools.vmi as vmi
+p = json.loads(%(params)r)
+IM = np.array(p['IM']); W = None if p['W'] is None else np.array(p['W'])
+origin = tuple(p['origin']) if isinstance(p['origin'], list) else p['origin']
+c = float.fromhex(p['c']); window = p['window']; exact = p['power_of_two']
+kw = dict(odd=p['odd'], use_sin=p['use_sin'], weights=W, method=p['method'])
+def run(img):
+    return vmi.Distributions(origin, p['rmax'], p['order'], **kw).image(img)
+r1, r2 = run(IM), run(c * IM)
+bad = []
+def same(a, b, what):
+    if exact and not np.array_equal(a, b, equal_nan=True): bad.append(what)
+harm = r2.harmonics(); P0, Pn = harm[:1], harm[1:]
+ib = r2.Ibeta(1)
+with np.errstate(all='ignore'):
+    ref = np.where(P0 != 0, Pn / np.where(P0 != 0, P0, 1), 0.0)
+if not np.array_equal(ib[1:], ref, equal_nan=True): bad.append('beta_n = P_n/P_0 wherever P_0 != 0')
+if not np.allclose(ib[0], 4 * np.pi * r2.r ** 2 * P0[0], rtol=1e-13, atol=0, equal_nan=True): bad.append('I = 4 pi r^2 P0')
+same(r2.cos(), c * r1.cos(), 'cos scales'); same(r2.cossin(), c * r1.cossin(), 'cossin scales')
+same(r2.harmonics(), c * r1.harmonics(), 'harmonics scale')
+i1, i2 = r1.Ibeta(window), r2.Ibeta(window)
+same(i2[0], c * i1[0], 'I scales')
+same(i2[1:], i1[1:], 'beta is scale invariant (window %%d)' %% window)
+if not np.array_equal(r2.rIbeta(window), np.vstack((r2.r, i2)), equal_nan=True): bad.append('rIbeta')
+mk = dict(kw)
+if not np.array_equal(vmi.Ibeta(c * IM, origin, p['rmax'], p['order'], window, **mk), i2, equal_nan=True): bad.append('vmi.Ibeta helper')
+if not np.array_equal(vmi.rIbeta(c * IM, origin, p['rmax'], p['order'], window, **mk), r2.rIbeta(window), equal_nan=True): bad.append('vmi.rIbeta helper')
+if not np.array_equal(vmi.harmonics(c * IM, origin, p['rmax'], p['order'], **mk), r2.harmonics(), equal_nan=True): bad.append('vmi.harmonics helper')
+if not np.array_equal(vmi.rharmonics(c * IM, origin, p['rmax'], p['order'], **mk), r2.rharmonics(), equal_nan=True): bad.append('vmi.rharmonics helper')
+print('C15 image scaling by', c, 'holds' if not bad else 'FAILS: ' + '; '.join(bad))
+sys.exit(0 if not bad else 1)
+'''
+
+
+def search_scale(ctx, rng, budget):
+    """Scaling the image by c != 0 over hundreds of decades (both signs): cos, cossin, harmonics and
+    I scale by c, beta does not change, beta_n = P_n/P_0 wherever P_0 != 0, rIbeta and the
+    module-level helpers agree; powers of two scale every binary64 operation exactly, so the
+    comparison is bit for bit; powers of ten are compared to 1e-9."""
+    import abel.tools.vmi as vmi
+    hits, n_eval, distinct = [], 0, set()
+    for it in range(budget):
+        h, w = [int(v) for v in rng.integers(6, 26, 2)]
+        if rng.random() < 0.6:
+            row, col = int(rng.integers(h)), int(rng.integers(w))
+            o = (row, col)
+        else:
+            o = L.ORIGIN_STRINGS[rng.integers(len(L.ORIGIN_STRINGS))]
+        rm = L.RMAX_KW[rng.integers(9)] if rng.random() < 0.7 else int(rng.integers(1, max(h, w)))
+        order = int(rng.integers(0, 5)) if rng.random() < 0.75 else int(rng.integers(0, 9))
+        odd = bool(rng.integers(2))
+        meth = ['nearest', 'linear'][rng.integers(2)]
+        sin = bool(rng.integers(2))
+        W = None if rng.random() < 0.5 else rng.uniform(0.2, 3, (h, w)) * (rng.random((h, w)) < 0.9)
+        window = [1, 1, 2, 3, 5][rng.integers(5)]
+        exact = rng.random() < 0.7
+        sign = (-1.0) ** int(rng.integers(2))
+        c = sign * (2.0 ** int(rng.integers(-800, 801)) if exact else 10.0 ** int(rng.integers(-240, 241)))
+        # a peak on a background, ordinary units
+        yy, xx = np.mgrid[:h, :w]
+        IM = rng.uniform(0.5, 1.5, (h, w)) + 3 * np.exp(-((np.hypot(yy - h / 2, xx - w / 2) - min(h, w) / 4) ** 2) / 4)
+        kw = dict(odd=odd, use_sin=sin, weights=W, method=meth)
+        n_eval += 1
+        distinct.add(('scale', meth, sin, odd, W is None, window, exact, sign))
+        bad = []
+        try:
+            with warnings.catch_warnings(), np.errstate(all='ignore'):
+                warnings.simplefilter('ignore')
+                r1 = vmi.Distributions(o, rm, order, **kw).image(IM)
+                r2 = vmi.Distributions(o, rm, order, **kw).image(c * IM)
+
+                def same(a, b, what):
+                    # (only for powers of two: every binary64 operation then scales exactly, also at
+                    #  ill-conditioned radii; for powers of ten only the clauses at the scaled image
+                    #  itself are checked)
+                    if exact and not np.array_equal(a, b, equal_nan=True):
+                        bad.append(what)
+
+                harm = r2.harmonics()
+                P0, Pn = harm[:1], harm[1:]
+                ib = r2.Ibeta(1)
+                ref = np.where(P0 != 0, Pn / np.where(P0 != 0, P0, 1), 0.0)
+                if not np.array_equal(ib[1:], ref, equal_nan=True):
+                    bad.append('beta_n = P_n/P_0 wherever P_0 != 0')
+                if not np.allclose(ib[0], 4 * np.pi * r2.r ** 2 * P0[0], rtol=1e-13, atol=0, equal_nan=True):
+                    bad.append('I = 4 pi r^2 P0')
+                same(r2.cos(), c * r1.cos(), 'cos scales')
+                same(r2.cossin(), c * r1.cossin(), 'cossin scales')
+                same(r2.harmonics(), c * r1.harmonics(), 'harmonics scale')
+                i1, i2 = r1.Ibeta(window), r2.Ibeta(window)
+                same(i2[0], c * i1[0], 'I scales')
+                same(i2[1:], i1[1:], 'beta is scale invariant (window %d)' % window)
+                if not np.array_equal(r2.rIbeta(window), np.vstack((r2.r, i2)), equal_nan=True):
+                    bad.append('rIbeta')
+                if not np.array_equal(vmi.Ibeta(c * IM, o, rm, order, window, **kw), i2, equal_nan=True):
+                    bad.append('vmi.Ibeta helper')
+                if not np.array_equal(vmi.rIbeta(c * IM, o, rm, order, window, **kw), r2.rIbeta(window), equal_nan=True):
+                    bad.append('vmi.rIbeta helper')
+                if not np.array_equal(vmi.harmonics(c * IM, o, rm, order, **kw), r2.harmonics(), equal_nan=True):
+                    bad.append('vmi.harmonics helper')
+                if not np.array_equal(vmi.rharmonics(c * IM, o, rm, order, **kw), r2.rharmonics(), equal_nan=True):
+                    bad.append('vmi.rharmonics helper')
+        except Exception as e:     # noqa
+            bad.append('exception %s: %s' % (type(e).__name__, e))
+        for b in bad:
+            params = dict(IM=IM.tolist(), W=None if W is None else W.tolist(), origin=oj(o), rmax=rm, order=order, odd=odd,
+                          use_sin=sin, method=meth, c=float(c).hex(), window=window, power_of_two=bool(exact))
+            clause = re.sub(r' \(window \d+\)', '', b).split(':')[0]
+            hits.append(Hit('scale-and-ratio', 'C15:image-scale:%s:window=%s' % (clause, 'gt1' if window > 1 else '1'),
+                            'image (shape %dx%d, origin %r, rmax %r, order %d, odd %s, %s, use_sin %s) multiplied by %g: %s fails'
+                            % (h, w, o, rm, order, odd, meth, sin, c, b),
+                            SNIPPET_SCALE % dict(params=json.dumps(params)),
+                            dict(scale=float(c), window=window, order=order, odd=odd, method=meth)))
+    return hits, n_eval, len(distinct)
+
+
 def run(ctx):
     rng = np.random.default_rng(ctx.seed)
     warnings.simplefilter('ignore')
@@ -392,13 +512,19 @@ def run(ctx):
     mult = 3 if broken else 1
     h1, e1, d1 = search_repr(ctx, rng, (180 if ctx.quick else 1800) * mult)
     h2, e2, d2, samples = search_invariance(ctx, rng, (350 if ctx.quick else 3500) * mult)
+    h3, e3, d3 = search_scale(ctx, rng, (250 if ctx.quick else 2500) * mult)
+    h2 = h2 + h3
+    e2, d2 = e2 + e3, d2 + d3
     ctx.cov.update(evaluations=e1 + e2 + n_cases, distinct_nontrivial=d1 + d2,
                    rule='search 1: random coefficient arrays for each of the 18 (order, parity) cases, the four '
                         'representations evaluated at 7 random angles (tolerance 1e-9 relative to the coefficient sum); '
                         'search 2: seven invariances (mirror LR, mirror TB with sign change of odd terms, weight scaling, '
                         'zero-weight pixels, negative-index origin, location-string origin, larger rmax) on random images '
                         '4..25 squared, compared at radii with Hankel cond <= 1e8 (tolerance (1e-9 + 1e-12 cond)(1+|c|)); '
-                        'distinct by (invariance, method, use_sin, odd, N)',
+                        'distinct by (invariance, method, use_sin, odd, N); search 3: the image multiplied by +-2^k (|k| <= 700, '
+                        'compared bit for bit) or +-10^k (|k| <= 280, 1e-9): cos/cossin/harmonics/I scale, beta (windows 1,2,3,5) is '
+                        'unchanged, beta_n = P_n/P_0 exactly wherever P_0 != 0, rIbeta and the module-level Ibeta/rIbeta/harmonics/'
+                        'rharmonics helpers agree with the object',
                    samples=samples, exhaustive=False)
     new, seen = 0, set()
     for h in h0 + h1 + h2:
